@@ -67,6 +67,8 @@ static void
 subobj(struct initparser *p, struct type *t, unsigned long long off)
 {
 	off += p->sub->offset;
+	if (t->kind == TYPEARRAY && t->incomplete)
+		error(&tok.loc, "initialization of flexible array member");
 	if (++p->sub == p->obj + LEN(p->obj))
 		fatal("internal error: too many designators");
 	p->sub->type = t;
